@@ -2403,6 +2403,18 @@ func RLmAlt(c *core.Ctx) {
 			if !ok || core.FieldOf(info, rs.X) != alts {
 				return true
 			}
+			// only loops that collect occurrences (they handle End); a loop that merely
+			// consults a property of every alternative (R-LMSTART's rewind) is not one
+			handlesEnd := false
+			ast.Inspect(rs.Body, func(y ast.Node) bool {
+				if sel, ok := y.(*ast.SelectorExpr); ok && core.FieldOf(info, sel) == endF {
+					handlesEnd = true
+				}
+				return true
+			})
+			if !handlesEnd {
+				return true
+			}
 			n++
 			c.Visit(name)
 			returns := false
